@@ -10,6 +10,7 @@ CONSTANTS
   BugH9 = TRUE
   BugH10 = TRUE
   BugMetaStale = TRUE
+  BugH11 = FALSE
   KRounds = 12
-INVARIANTS TraceNotStuck C15ModKF C15Note
+INVARIANTS TraceNotStuck C15ModKFT C15Note
 CHECK_DEADLOCK FALSE
